@@ -90,7 +90,7 @@ func respell(v any, mask int, top bool) any {
 func init() {
 	// ------------------------------------------------------------------ C12
 	register("C12", func(c *engine.Ctx) {
-		c.Rule = "random schemas (all features, titles, numeric-looking keys) x random option sets; each generated: three times in one process, from files whose objects have their keys in three different random orders, from a relocated directory, and (a sample) by the CLI binary in separate processes; all outputs must be byte-identical under the same names. Colliding names: sets of definition / property names that normalise to one identifier, with different content, generated 30 times in one process with shuffled key orders. Mapping order: sets of 1..4 schema mappings whose ids are pairwise distinct but nearly equal to the schema's $id (trailing # or /, letter case, trailing space, prefix) in EVERY slice order (main.go takes the order from a map): identical outputs, equal to the model's route / rootOverride. Distinct = distinct (option set, schema shape)."
+		c.Rule = "random schemas (all features, titles, numeric-looking keys) x random option sets; each generated: three times in one process, from files whose objects have their keys in three different random orders, from a relocated directory, and (a sample) by the CLI binary in separate processes; all outputs must be byte-identical under the same names. Colliding names: sets of definition / property names that normalise to one identifier, with different content, generated 30 times in one process with shuffled key orders. Resolve-extension order: an extension-less reference with candidate files .json / .yaml / .yml of different content, three orders of the extension list: the first listed wins, 30 generations each. Mapping order: sets of 1..4 schema mappings whose ids are pairwise distinct but nearly equal to the schema's $id (trailing # or /, letter case, trailing space, prefix) in EVERY slice order (main.go takes the order from a map): identical outputs, equal to the model's route / rootOverride. Distinct = distinct (option set, schema shape)."
 		c.Proofs([]string{"GJS.Props.C12"}, []string{
 			"GJS.Props.C12.sortedKeys_perm", "GJS.Props.C12.alookup_perm", "GJS.Props.C12.visited_perm", "GJS.Props.C12.parseTypeList_order_free",
 			"GJS.Props.C12.route_perm", "GJS.Props.C12.rootOverride_perm", "GJS.Props.C12.route_exact",
@@ -208,6 +208,37 @@ func init() {
 			}
 		}
 		c.Programs += 2 * len(collSets)
+		// an extension-less reference with SEVERAL candidate files of different content: the first listed resolve
+		// extension wins, every time (30 generations per order of the extension list)
+		for oi, exts := range [][]string{{".json", ".yaml"}, {".yaml", ".json"}, {".yml", ".json", ".yaml"}} {
+			dir := filepath.Join(tmp, fmt.Sprintf("ext%d", oi))
+			_ = os.MkdirAll(dir, 0o755)
+			for _, e := range []string{".json", ".yaml", ".yml"} {
+				body := sgen.M{"$id": "urn:item" + e, "title": "Item", "type": "object", "properties": sgen.M{"name": sgen.M{"type": "string"}, "from" + strings.TrimPrefix(e, "."): sgen.M{"type": "integer"}}}
+				_ = os.WriteFile(filepath.Join(dir, "item"+e), core.MustJSON(body), 0o644)
+			}
+			mainSchema := core.MustJSON(sgen.M{"$id": "urn:c12", "type": "object", "properties": sgen.M{"item": sgen.M{"$ref": "./item"}}})
+			cfg := core.DefaultCfg()
+			cfg.Tags = []string{"json"}
+			cfg.ResolveExtensions = exts
+			ref := genSrc(dir, "main.json", mainSchema, cfg, "urn:c12")
+			want := "From" + exts[0][1:] + " "
+			c.Eval(fmt.Sprintf("resolve-extension-order|%v|first-wins=%v", exts, strings.Contains(ref, want)))
+			if !strings.Contains(ref, want) {
+				fails++
+				c.Fail("oracle", fmt.Sprintf("resolve extensions %v: the extension-less reference was not resolved with the first listed extension (expected a field %s)", exts, want),
+					M{"kind": "relational", "variant": "resolve-extension-order", "cfg": cfg, "reference_output": clip(ref, 1500)}, false)
+			}
+			for rep := 0; rep < 30; rep++ {
+				got := genSrc(dir, "main.json", mainSchema, cfg, "urn:c12")
+				if got != ref {
+					fails++
+					c.Fail("oracle", fmt.Sprintf("resolve extensions %v: repetition %d of the same generation resolves the extension-less reference to another file", exts, rep),
+						M{"kind": "relational", "variant": "resolve-extension-order", "cfg": cfg, "reference_output": clip(ref, 1500), "variant_output": clip(got, 1500)}, false)
+					break
+				}
+			}
+		}
 		mappingOrderStream(c, &fails)
 		c.FactsVerdict(fails > 0)
 	})
